@@ -599,6 +599,28 @@ async fn abandoned_rpcs(_a: &Value) -> Value {
     tokio::time::sleep(Duration::from_millis(300)).await;
     let (mut ran, mut still) = (0u32, 0u32);
     for k in 0..40u32 { let r = rec(&format!("e{k}")); if r.completed { ran += 1; } if r.started && r.dropped_unfinished_after_ms.is_none() && !r.completed { still += 1; } }
+    // (g) abandoned while QUEUED: the listener's 4 streams are all held by parked RPCs, 1000 further RPCs are dropped after one poll (every 10th by a 1 ms
+    // timeout) while they wait for a stream; then the parked ones finish and later RPCs must go through
+    let mut parked = Vec::new();
+    for k in 0..4u32 {
+        let c6 = client.clone();
+        let body = Bytes::from(format!("slow:park{k}:1200").into_bytes());
+        parked.push(tokio::spawn(async move { let r = c6.rpc(sid, Request::new(body)).await; matches!(r, Ok(ref resp) if resp.body().starts_with(b"slow:park")) }));
+    }
+    for _ in 0..200 { if (0..4).all(|k| started(&format!("park{k}"))) { break; } tokio::time::sleep(Duration::from_millis(5)).await; }
+    let all_parked = (0..4).all(|k| started(&format!("park{k}")));
+    let mut queued_then_dropped = 0u32;
+    for k in 0..1000u32 {
+        let mut f = Box::pin(client.rpc(sid, Request::new(Bytes::from_static(b"queued"))));
+        if k % 10 == 9 { let _ = tokio::time::timeout(Duration::from_millis(1), &mut f).await; }
+        else { let _ = futures::poll!(&mut f); }
+        drop(f); queued_then_dropped += 1;
+    }
+    let mut parked_ok = 0u32;
+    for p in parked { if tokio::time::timeout(Duration::from_secs(4), p).await.map(|r| r.unwrap_or(false)).unwrap_or(false) { parked_ok += 1; } }
+    let mut later_ok = 0u32;
+    for _ in 0..4 { if matches!(tokio::time::timeout(Duration::from_secs(2), client.rpc(sid, Request::new(Bytes::from_static(b"later")))).await, Ok(Ok(ref r)) if r.body().as_ref() == b"later") { later_ok += 1; } }
+    out.insert("abandoned_while_queued".into(), json!({"listener_streams_all_held": all_parked, "abandoned_while_waiting_for_a_stream": queued_then_dropped, "parked_rpcs_completed": parked_ok, "later_rpcs_ok_of_4": later_ok, "still_connected": client.peers().contains(&sid)}));
     out.insert("many_abandoned".into(), json!({"abandoned": abandoned, "listener_concurrent_streams": 4, "later_rpc_ok": after_ok, "later_rpc_ms": after_ms, "handlers_that_ran_to_completion": ran, "handlers_still_running_300ms_later": still, "rpc_in_flight_meanwhile_ok": long_ok}));
     Value::Object(out)
 }
